@@ -1,6 +1,7 @@
 (* C06 - A join visits exactly the intersection, once each, in index order. *)
 From SV Require Import Base.ListX Store.Masked World.Env World.Join World.JoinProps World.JoinAbs World.JoinRefine
-  World.JoinAbsProps World.EnvSim World.JoinNoStuck World.Simulation.
+  World.JoinAbsProps World.EnvSim World.JoinNoStuck World.Simulation
+  Bits.Hibit Bits.HibitIter Bits.HibitOrder Bits.HibitSet Bits.HibitExpr Bits.HibitOps.
 From Coq Require Import Sorting.Sorted.
 
 (* the keys of a join are strictly ascending: index order, each index once *)
@@ -175,6 +176,45 @@ Example C06_nonvacuous :
     JItems [(1, [JTok (10, 1%Z); JUnit]); (4096, [JTok (12, 3%Z); JUnit])].
 Proof. vm_compute. split; reflexivity. Qed.
 
+(* ---- the masks themselves.  The storage and join models keep a mask as a plain finite set and enumerate it in
+   ascending order; the implementation keeps it in a four-layer bit set and walks the layers.  For every sequence of
+   add / remove (indices below 2^24), from the empty set: the layers stay consistent, membership is that of the plain
+   set, and the layer-walking iterator terminates having yielded exactly the plain set's elements in the model's
+   order - also for indices that straddle the 64 / 4096 / 262144 boundaries, since the statement is for all ---- *)
+Theorem C06_bitset_tracks_the_plain_set : forall ops,
+  Forall (fun o => bop_index o < top) ops ->
+  represents (fold_left bs_do ops bs_empty) (fold_left ns_do ops NS.empty).
+Proof. intros ops F. apply represents_ops; [apply represents_empty|exact F]. Qed.
+
+Theorem C06_bitset_iteration_is_the_ascending_element_list : forall s m, represents s m ->
+  drain_iter (bs_get s) (S (weight (fresh (bs_get s)))) (fresh (bs_get s)) = Some (NS.elements m).
+Proof. exact bitset_iteration_is_elements. Qed.
+
+(* the masks of joins are combinations of such sets: a & b (tuples), a | b (alive or created this frame), !a (negated
+   members), a ^ b.  Each stands for the combination of the memberships ... *)
+Theorem C06_combined_masks_stand_for_the_combined_membership :
+  (forall s, bs_inv s -> exact (bs_get s) (mem s)) /\
+  (forall a b P Q, exact a P -> exact b Q -> exact (g_and a b) (fun x => P x /\ Q x)) /\
+  (forall a b P Q, exact a P -> exact b Q -> exact (g_or a b) (fun x => P x \/ Q x)) /\
+  (forall a P, exact a P -> exact (g_not a) (fun x => x < top /\ ~ P x)) /\
+  (forall a b P Q, exact a P -> exact b Q -> exact (g_xor a b) (fun x => (P x \/ Q x) /\ (x < top /\ ~ (P x /\ Q x)))).
+Proof. split; [exact exact_bitset|]. split; [exact exact_and|]. split; [exact exact_or|]. split; [exact exact_not|exact exact_xor]. Qed.
+
+(* ... and iterating it terminates with exactly the indices that satisfy it, strictly ascending (each once) *)
+Theorem C06_mask_iteration_yields_exactly_the_members_in_index_order : forall g P, exact g P ->
+  exists out, drain_iter g (S (weight (fresh g))) (fresh g) = Some out /\
+              StronglySorted N.lt out /\ forall x, In x out <-> P x.
+Proof. exact iteration_exact. Qed.
+
+Example C06_mask_nonvacuous :
+  let a := fold_left bs_do [BAdd 63; BAdd 64; BAdd 4095; BAdd 4096; BAdd 262143; BAdd 262144; BAdd 7; BRemove 7; BAdd 16777215] bs_empty in
+  let b := fold_left bs_do [BAdd 64; BAdd 4096; BAdd 9; BAdd 262144; BRemove 262144] bs_empty in
+  drain_iter (bs_get a) 100 (fresh (bs_get a)) = Some [63; 64; 4095; 4096; 262143; 262144; 16777215] /\
+  drain_iter (g_and (bs_get a) (g_not (bs_get b))) 100 (fresh (g_and (bs_get a) (g_not (bs_get b)))) = Some [63; 4095; 262143; 262144; 16777215] /\
+  b3 (fold_left bs_do [BAdd 300000; BRemove 300000] bs_empty) = [].
+Proof. vm_compute. repeat split; reflexivity. Qed.
+
+
 Print Assumptions C06_ascending_once.
 Print Assumptions C06_exactly_the_intersection.
 Print Assumptions C06_membership_per_member_kind.
@@ -196,3 +236,7 @@ Print Assumptions C06_cells_after_a_join.
 Print Assumptions C06_drain_removes_the_visited_only.
 Print Assumptions C06_joins_are_never_stuck.
 Print Assumptions C06_joins_add_no_member.
+Print Assumptions C06_bitset_tracks_the_plain_set.
+Print Assumptions C06_bitset_iteration_is_the_ascending_element_list.
+Print Assumptions C06_combined_masks_stand_for_the_combined_membership.
+Print Assumptions C06_mask_iteration_yields_exactly_the_members_in_index_order.
